@@ -138,6 +138,26 @@ pub struct Scenario {
     pub fuel: u64,
     #[serde(default = "default_stack")]
     pub stack_kib: usize,
+    /// the simulated clock every shimmed `Instant::now()` / `SystemTime::now()` reads (hook 9)
+    #[serde(default)]
+    pub clock: ClockSpec,
+}
+
+/// Simulated clock: starts at `start_ns`; read number k first advances it by `plan[k % len]`
+/// nanoseconds (an empty plan is a frozen clock)
+#[derive(Clone, Debug, PartialEq, Eq, Serialize, Deserialize, Default)]
+pub struct ClockSpec {
+    #[serde(default)]
+    pub start_ns: u64,
+    #[serde(default)]
+    pub plan: Vec<u64>,
+}
+
+impl ClockSpec {
+    /// one millisecond per read
+    pub fn ticking() -> ClockSpec {
+        ClockSpec { start_ns: 0, plan: vec![1_000_000] }
+    }
 }
 
 impl Scenario {
@@ -153,6 +173,7 @@ impl Scenario {
             warm_thread: false,
             fuel: default_fuel(),
             stack_kib: default_stack(),
+            clock: ClockSpec::ticking(),
         }
     }
 }
